@@ -37,6 +37,7 @@ struct Profile {
   bool buggify = true;
   bool child_output = true;
   bool hostile_output = false;
+  bool prune_empty_dirs = false;        // some commands end by deleting every empty directory (-j1 builds)
   bool generator_restats_log = false;   // generator commands may end with `ninja -t restat` (log replaced mid-build)
   bool signal_at_syscall = false;      // half of the interrupts arrive at a syscall where ninja is busy, not while it waits
   bool multi_process_cmds = false;     // half of the commands are a shell plus a program in the same process group
